@@ -125,7 +125,7 @@ def main():
         rewrites += ['[%s] %s %s: %s => %s' % (u, e['rule'], e['where'], e['before'], e['after']) for e in b.log]
         fns += ['%s:%s' % (u, f[2]) for f in b.fn_ranges]
         if r.get('json'):
-            smt = r['json']['times-ms']['smt']
+            smt = (r['json'].get('times-ms') or {}).get('smt') or {}
             smt_ms += smt.get('total', 0); rlimit_total += smt.get('rlimit-run', 0)
             for mod in smt.get('smt-run-module-times', []):
                 for fb in mod.get('function-breakdown', []):
@@ -229,4 +229,13 @@ def main():
         print('UNDECIDED property=%s undecided=%s vacuous=%s' % (prop, undecided, vacuous)); sys.exit(2)
     print('OK property=%s obligations=%d discharged=%d known_findings=%d wall=%.1fs' % (prop, ev['coverage']['obligations'], ev['coverage']['discharged'], len(set(known_lines)), time.time() - t0))
 
-if __name__ == '__main__': main()
+if __name__ == '__main__':
+    try:
+        main()
+    except SystemExit:
+        raise
+    except BaseException as e:      # a bug or resource problem of the driver is never an alarm
+        import traceback
+        traceback.print_exc()
+        print('UNDECIDED driver error: %r' % (e,))
+        sys.exit(2)
